@@ -177,7 +177,8 @@ def run_case(arg):
                                 oc.violate("unpack:sane-entry-missing-or-wrong", "exit 0 but %r is missing or differs (opts %s)" % (p, opts), {"image.sqfs": img, "stderr.txt": res.err})
                         # skipped entries must be named
                         skipped = [nm for p, nm in raw.items() if b"/" not in p and (nm in (b".", b"..") or b"/" in nm)]
-                        if skipped and b"skipping" not in res.err:
+                        # (entries excluded by a type filter such as -L are not "skipped because of their name")
+                        if skipped and b"skipping" not in res.err and not set(opts) & {"-D", "-S", "-F", "-L", "-E"}:
                             oc.violate("unpack:skipped-entry-not-reported", "hostile names %r but no 'skipping' message" % skipped[:3], {"image.sqfs": img, "stderr.txt": res.err})
                 else:
                     oc.inc("exit_nonzero")
